@@ -462,6 +462,10 @@ pub fn suite_ts(t: &mut Tracer, tier: Tier, seed: u64) {
                 for role in Role::ALL {
                     ts_sync(t, role, "slice", &bytes);
                     ts_sync(t, role, "frombuf", &bytes);
+                    if len <= 2 || total % 7 == 0 {
+                        ts_incr(t, role, &bytes, 1);
+                        ts_incr(t, role, &bytes, 2);
+                    }
                     ts_async(t, role, &bytes, &[], Eof::Fin);
                     if len <= 2 {
                         for s in gen::scripts(bytes.len(), &mut r, 1) {
@@ -499,6 +503,7 @@ pub fn suite_ts(t: &mut Tracer, tier: Tier, seed: u64) {
         for role in Role::ALL {
             ts_sync(t, role, "slice", &exch[..cut]);
             ts_sync(t, role, "frombuf", &exch[..cut]);
+            ts_incr(t, role, &exch[..cut], 1 + cut % 3);
             for eof in EOFS {
                 ts_async(t, role, &exch[..cut], &[1, 2, 0, 3], eof);
             }
@@ -840,6 +845,8 @@ pub fn suite_adm(t: &mut Tracer, tier: Tier, seed: u64) {
         "200.0", "0x200", "abc", "20a", "\u{0662}\u{0660}\u{0660}", "65536", "65537", "99999",
         "100000", "4294967296", "18446744073709551616", "99", "100", "101", "199", "200", "299",
         "300", "599", "600", "+99", "+600", "+0", "-0", "+", "++200", "٢٠٠",
+        // values whose low 16 / 32 bits are a valid status
+        "65636", "65736", "66135", "131272", "4294967496", "4294967396", "281474976710856", "999", "099", "0999",
     ];
     for s in odd {
         status_str(t, s);
